@@ -62,10 +62,14 @@ def replay(prop, failed_ids, tier, seed):
     cfg = _cfg().get(prop)
     if not cfg:
         return []
-    res, err = _run_bin(cfg, ["--seed", str(seed), "--tier", tier] + list(failed_ids))
-    if err:
-        return [dict(violation=False, error=err)]
-    return res
+    out = []
+    for entry in [cfg] + list(cfg.get("also", [])):
+        res, err = _run_bin(entry, ["--seed", str(seed), "--tier", tier] + list(failed_ids))
+        if err:
+            out.append(dict(violation=False, error=err))
+        else:
+            out += res
+    return out
 
 
 def rerun(prop, path):
@@ -75,10 +79,13 @@ def rerun(prop, path):
         print("no replay binary for %s; stored verifier output:" % prop)
         print(json.dumps(d.get("verifier_output"), indent=1)[:4000])
         return 0
-    res, err = _run_bin(cfg, ["--input", json.dumps(d.get("failing_inputs", []))] + [d.get("obligation", "")])
-    if err:
-        print(err)
-        return 2
+    res = []
+    for entry in [cfg] + list(cfg.get("also", [])):
+        r1, err = _run_bin(entry, ["--input", json.dumps(d.get("failing_inputs", []))] + [d.get("obligation", "")])
+        if err:
+            print(err)
+            return 2
+        res += r1
     bad = [r for r in res if r.get("violation")]
     for r in res:
         print(json.dumps(r))
